@@ -393,9 +393,10 @@ def on_curve_ops(rng, tier, W, std):
         room = n * W - m
         par = "%d %d %d %d %s %s" % (m, k1, k2, k3, hx(int(d[4]), no), d[5][:2 * no])
         x, y = d[8][:2 * no], d[8][2 * no:4 * no]
+        # hx, hy: multiples hx(t)·f(t), hy(t)·f(t) of the modulus are added — same residues, not reduced
         for hxv, hyv in ((0, 0), (1, 0), (0, 1), (1, 1), (2, 0), (1 << (room - 1), 0), (0, 1 << (room - 1)), ((1 << room) - 1, (1 << room) - 1)):
             ops.append(Op(pre + "ec2on %s %s %s %d %d" % (par, x, y, hxv, hyv), "1 1" if hxv == hyv == 0 else "1 0",
-                          "ec2on:%s" % ("canonical" if hxv == hyv == 0 else "high-bits"), W))
+                          "ec2on:%s" % ("canonical" if hxv == hyv == 0 else "plus-multiple-of-modulus"), W))
         ops.append(Op(pre + "ec2on %s %s %s 0 0" % (par, x, hx(lev(y) ^ 1, no)), "1 0", "ec2on:off-curve", W))
         ops.append(Op(pre + "ec2on %s %s %s 0 0" % (par, x, hx(lev(x) ^ lev(y), no)), "1 1", "ec2on:negated", W))
     return ops
@@ -437,6 +438,25 @@ def extend_ops(rng, tier, W):
         noq, noa = max(1, (q.bit_length() + 7) // 8), max(1, (a.bit_length() + 7) // 8)
         ops.append(Op("extend %d %d %s %s %d %d %s" % (W, l, hx(q, noq), hx(a, noa), trials, bc, tape.hex() or "-"),
                       extend_check(l, q, a), "extend:%s" % ("a=1" if a == 1 else "a>1"), W))
+    # directed: the first candidate is a COMPOSITE p = 2qr + 1 with 4^r = 1 (mod p) — only the test (4^r)^a != 1 of Demytko's
+    # theorem rejects it (no sieving: base_count = 0); one trial, so the correct answer is "not found"
+    found = 0
+    for q in [x for x in SP if 5 <= x <= 400]:
+        for r in range(1, 4 * q):
+            p = 2 * q * r + 1
+            l = p.bit_length()
+            if is_prime(p) or pow(4, r, p) != 1 or l > 2 * q.bit_length() or q.bit_length() + 1 > l or 2 * r >= 4 * q + 1:
+                continue
+            lo = 1 << (l - 2)
+            t = q * r            # r = ceil(t / q)
+            if not (lo <= t < 2 * lo):
+                continue
+            npo = (l + 7) // 8
+            ops.append(Op("extend %d %d %s %s 1 0 %s" % (W, l, hx(q, 2), "01", hx(t - lo, npo)),
+                          "0 0", "extend:composite-with-4^r=1", W, note="p = %d = 2*%d*%d + 1 is composite and 2^(2r) = 1 (mod p)" % (p, q, r)))
+            found += 1
+        if found >= (6 if tier == "quick" else 40):
+            break
     # preconditions: refused by harness and driver alike
     for q, a, l in ((9, 1, 8), (4, 1, 5), (1, 1, 4), (1009, 1, 21), (1009, 1024, 15), (1009, 0, 12)):
         ops.append(Op("extend %d %d %s %s 5 4 %s" % (W, l, hx(q, 2), hx(a, 2), "11" * 16),
